@@ -32,3 +32,32 @@ func VerifParserImmutable() {
 	zzverif.Assert(zzverif.GlobalWrites() == before, "parse_writes_no_package_level_state")
 	zzverif.Cover("parser_immutable_done")
 }
+
+
+// Two callers parse the same (or an aliased) descriptor, each with its own time zone: each gets its own schedule
+// object, and the first caller's schedule - its zone and its fields - is bit-for-bit what it was before the second
+// caller parsed (nothing of one parse reaches another through the package's tables).
+//
+//verif:harness prop=C08 name=descriptor_results_independent unwind=40 panic=ok
+func VerifDescriptorIndependent() {
+	ds := []string{"@yearly", "@annually", "@monthly", "@weekly", "@daily", "@midnight", "@hourly"}
+	d1 := ds[zzverif.Choose("first", len(ds))]
+	d2 := ds[zzverif.Choose("second", len(ds))]
+	z1, z2 := new(time.Location), new(time.Location)
+	a, err := parseDescriptor(d1, z1)
+	zzverif.Assert(err == nil, "descriptor_accepted")
+	s1 := a.(*SpecSchedule)
+	before := *s1
+	b, err := parseDescriptor(d2, z2)
+	zzverif.Assert(err == nil, "descriptor_accepted")
+	s2 := b.(*SpecSchedule)
+	zzverif.Assert(s1 != s2, "each_parse_returns_its_own_schedule")
+	zzverif.Assert(s1.Location == z1 && s2.Location == z2, "each_schedule_keeps_its_own_zone")
+	zzverif.Assert(*s1 == before, "first_schedule_unchanged_by_the_second_parse")
+	// and a caller that changes its schedule does not change what the next caller gets
+	s1.Minute, s1.Location = 0, nil
+	c, _ := parseDescriptor(d1, z2)
+	s3 := c.(*SpecSchedule)
+	zzverif.Assert(s3.Minute == 1 && s3.Location == z2, "later_parse_unaffected_by_a_caller_editing_its_result")
+	zzverif.Cover("descriptor_independent_done")
+}
